@@ -18,6 +18,8 @@ a scratch working directory with FEND_CONFIG_DIR / FEND_CACHE_DIR set):
       `--verif-hook config` (the Config the program really uses) and vs the
       diagnostics on stderr; then the program's behaviour on setting-sensitive
       expressions vs fend_core configured with the *model's* settings;
+  X   exchange-rate settings (enable-internet-access, exchange-rate-source, exchange-rate-max-age): 36
+      configs x 2 conversions on prepared EU / UN cache files vs the C20 model + fend_core;
   C   colours: with enable-colors = 'always' the output with SGR sequences
       removed is the plain result, and each sequence is the configured style.
 Spec (independent of the model): the property statement read directly --
@@ -489,11 +491,82 @@ ATTR = {b'none': 'None', b'allow-long-prefix': 'AllowLongPrefix', b'allow-short-
 SENSITIVE = ['1.5 + 1', '1234.5 * 2', '1 C', '1 F', '2 foo to m', '3 blorps', '1 kilozork to s', '5 kqx', '1 mygram to g', '2 hyperfoo',
              '1 fathomz to feet', '10 fathomzes', 'foo', 'zork', '1,5 + 1']
 
+
+ATTRS = ['none', 'allow-long-prefix', 'allow-short-prefix', 'is-long-prefix', 'alias']
+UNIT_NAMES = [('zorb', 'zorbs'), ('twice', 'twices'), ('quux', 'quuxes')]
+UNIT_FAMILIES = [('5 m', 'm'), ('2', None), ('3 kg', 'g')]
+KN_LP = 'custom-long-prefix-unusable'
+
+def base_of(definition):
+    m = re.search(r'([A-Za-z]+)\s*$', definition)
+    return m.group(1) if m else None
+
+def unit_exprs(U, Us, base, full=True):
+    """expressions whose meaning depends on how the unit was handed to the core:
+    bare, plural, long prefix, short prefix, glued in front of other units, conversions"""
+    es = ['3 ' + U, '3 ' + Us, '1 kilo' + U, '1 k' + U, '1 ' + U + 'meter', U]
+    if base:
+        es += ['3 %s to %s' % (U, base), '10 %s to %s' % (base, U)]
+    if full:
+        es += ['2 kilo' + Us, '2 k' + Us, '1 mega' + U, '1 M' + U, '1 %sm' % U, '1 %sflarn' % U, '1 %sflarn to flarn' % U,
+               '1 %sshou' % U, '(3 %s) * 2' % U, '1 %s + 1 %s' % (U, Us), '1 / ' + U, '5 to ' + U]
+        if base:
+            es += ['3 %s to %s' % (Us, base), '1 kilo%s to %s' % (U, base), '1 k%s to %s' % (U, base), '1 kilo%s to %s' % (U, U)]
+    return es
+
+def exprs_for(st, full):
+    """setting-sensitive expressions chosen from the *model's* reading of the configuration"""
+    coulomb, comma, units, mode = st
+    es = ['1.5 + 1', '1,5 + 1', '1234.5 * 2', '1 C', '1 F', '1 C to A s']
+    for u in units:
+        U = u[0].decode('utf-8', 'replace')
+        Us = (u[1] or u[0]).decode('utf-8', 'replace')
+        if re.fullmatch(r'[A-Za-z]+', U) and re.fullmatch(r'[A-Za-z]+', Us):
+            es += unit_exprs(U, Us, base_of(u[2].decode('utf-8', 'replace')), full)
+    return es
+
+def doc_expect(st):
+    """what the documentation (default_config.toml comments, manual) promises, written down independently of
+    fend_core and of cli code: expr -> (exit, stdout or None = do not care)"""
+    coulomb, comma, units, mode = st
+    ex = {}
+    ex['1.5 + 1'] = (0, b'16\n' if comma else b'2.5\n')
+    ex['1,5 + 1'] = (0, b'2,5\n' if comma else b'16\n')
+    ex['1 C'] = (0, b'1 C\n' if coulomb else b'1 \xc2\xb0C\n')
+    ex['1 F'] = (0, b'1 F\n' if coulomb else b'1 \xc2\xb0F\n')
+    if len(units) >= 1:
+        U, Us, D, attr = [x.decode() for x in units[0]]
+        Us = Us or U
+        if D == '2' and U != Us:
+            a = attr
+            if a in ('none', 'allow-long-prefix', 'allow-short-prefix'):
+                ex['3 ' + U] = (0, ('3 %s\n' % Us).encode())
+                ex['3 ' + Us] = (0, ('3 %s\n' % Us).encode())
+            else:                                   # alias / is-long-prefix: always expanded to the definition
+                ex['3 ' + U] = (0, b'6\n')
+                ex['3 ' + Us] = (0, b'6\n')
+            ex['1 kilo' + U] = (0, ('1 kilo%s\n' % U).encode()) if a == 'allow-long-prefix' else (1, b'')
+            if a in ('none', 'allow-long-prefix', 'is-long-prefix', 'alias'):
+                ex['1 k' + U] = (1, b'')
+            else:
+                ex['1 k' + U] = (0, ('1 k%s\n' % U).encode())
+            if a == 'is-long-prefix' and len(units) > 1:
+                # "allow using this unit as a long prefix with another unit": flarn allows long prefixes
+                ex['1 %sflarn to flarn' % U] = (0, b'2 flarns\n')
+            elif a != 'is-long-prefix':
+                ex['1 %sflarn to flarn' % U] = (1, b'')
+    return ex
+
 def config_layer(c, run, r, n, stats):
     cfgroot = os.path.join(run.scratch, 'cfgs')
     os.makedirs(cfgroot)
     cases = []      # (dir, kind, bytes|None)
-    def add(kind, data):
+    full_cases, groups = set(), {}
+    def add(kind, data, full=False, group=None):
+        if full:
+            full_cases.add(len(cases))
+        if group is not None:
+            groups.setdefault(group, []).append(len(cases))
         d = os.path.join(cfgroot, 'c%d' % len(cases))
         os.makedirs(d)
         if data is not None:
@@ -518,6 +591,22 @@ def config_layer(c, run, r, n, stats):
     add('hand', b'custom-units = []\n')
     add('hand', b'custom-units = [{ singular = "foo", definition = "5 m" }, { singular = "blorp", plural = "blorps", definition = "2 foo" }]\n')
     add('hand', b'exchange-rate-max-age = 18446744073709551615\n')
+    # settings applied after parsing: every combination of the two evaluation switches
+    for cf_ in ('true', 'false'):
+        for sep in ('comma', 'dot', 'default'):
+            add('setting-switches', ('coulomb-and-farad = %s\ndecimal-separator-style = "%s"\n' % (cf_, sep)).encode(), full=True)
+    # every attribute kind x definition family x name, singular != plural; with two companion units to glue to
+    companions = ('[[custom-units]]\nsingular = "flarn"\nplural = "flarns"\ndefinition = "5 m"\nattribute = "allow-long-prefix"\n'
+                  '[[custom-units]]\nsingular = "shou"\nplural = "shous"\ndefinition = "7 s"\nattribute = "allow-short-prefix"\n')
+    for attr in ATTRS + [None]:
+        for (D, _b) in UNIT_FAMILIES:
+            for (U, Us) in UNIT_NAMES:
+                t = '[[custom-units]]\nsingular = "%s"\nplural = "%s"\ndefinition = "%s"\n' % (U, Us, D)
+                if attr is not None:
+                    t += 'attribute = "%s"\n' % attr
+                add('unit-attr', (t + companions).encode(), full=True, group=(D, U))
+                if U == 'zorb':
+                    add('unit-attr', t.encode(), full=True)
     add('hand', b'max-history-size = 9223372036854775807\n')
     for _ in range(n):
         t = gen_config(r)
@@ -627,20 +716,25 @@ def config_layer(c, run, r, n, stats):
             stats['K-unknown-key-pair-ok'] += 1
     # behaviour under each configuration: the program vs fend_core configured with the model's settings
     beh = []
-    for (d, kind, data), st in zip(cases, settings):
+    for ci, ((d, kind, data), st) in enumerate(zip(cases, settings)):
         if st is None:
             continue
-        for e in r.sample(SENSITIVE, 4):
-            beh.append((d, kind, st, [e]))
-        beh.append((d, kind, st, ['x = 2,5' if st[1] else 'x = 2.5', 'x + 1']))
+        full = ci in full_cases
+        es_ = exprs_for(st, full)
+        if not full:
+            es_ = es_ + r.sample(SENSITIVE, 2)
+        for e in dict.fromkeys(es_):
+            beh.append((d, kind, st, [e], ci))
+        beh.append((d, kind, st, ['x = 2,5' if st[1] else 'x = 2.5', 'x + 1'], ci))
     hl = {}
-    for d, kind, st, es in beh:
+    for d, kind, st, es, ci in beh:
         hl.setdefault(harness_line(list(st[:3]), [e.encode() for e in es]), None)
     keys = list(hl)
     for k, o in zip(keys, c.impl('cli', keys)):
         hl[k] = o
-    outs = run.run([([x for e in es for x in ('-e', e)], None, run.env(d, {'NO_COLOR': '1'})) for d, kind, st, es in beh])
-    for (d, kind, st, es), (rc, so, se) in zip(beh, outs):
+    outs = run.run([([x for e in es for x in ('-e', e)], None, run.env(d, {'NO_COLOR': '1'})) for d, kind, st, es, ci in beh])
+    sig = {}
+    for (d, kind, st, es, ci), (rc, so, se) in zip(beh, outs):
         res = try_parse(hl[harness_line(list(st[:3]), [e.encode() for e in es])])
         c.note_case('KB:%s:%s' % (d, es), True, 'K-behaviour')
         rep = {'layer': 'K fend binary under a config', 'kind': kind, 'config_toml': (open(os.path.join(d, 'config.toml'), 'rb').read().decode('utf-8', 'replace')[:1500]
@@ -653,6 +747,19 @@ def config_layer(c, run, r, n, stats):
             c.violation('harness-failed', dict(rep, kind='infrastructure', harness=str(hl.get(harness_line(list(st[:3]), [e.encode() for e in es])))[:300]), no_input=True)
             continue
         want = spec_out(res)
+        if len(es) == 1:
+            sig.setdefault(ci, []).append((es[0], want))
+            de = doc_expect(st).get(es[0]) if ci in full_cases else None
+            plain_so = SGR.sub(b'', so) if st[3] == 2 else so
+            if de is not None and (rc != de[0] or (de[0] == 0 and plain_so != de[1]) or (de[0] == 1 and so != b'')):
+                lp = (es[0].endswith('flarn to flarn') and de[0] == 0 and rc == 1 and b'unknown identifier' in se)
+                if lp and c.known_finding(KN_LP):
+                    stats['K-known-long-prefix'] += 1
+                else:
+                    c.violation('setting-not-applied-as-documented', dict(rep, kind='impl-vs-spec', documented=repr(de)))
+                    continue
+            elif de is not None:
+                stats['K-documented-ok'] += 1
         if st[3] == 2:
             # enable-colors = 'always': the result is decorated with SGR sequences (checked in layer C)
             if want[1] and not SGR.search(so):
@@ -674,6 +781,134 @@ def config_layer(c, run, r, n, stats):
             c.violation('behaviour-under-config', dict(rep, kind='impl-vs-model', expected=repr(want)[:400]), no_input=True)
         else:
             stats['K-behaviour-ok'] += 1
+
+
+    # generator self-check: within one (definition, name) group the configs differ only in the attribute;
+    # every two attribute kinds must be told apart by at least one expression (else a swapped mapping would pass)
+    same = set()
+    for g, idxs in groups.items():
+        kinds = {}
+        for ci in idxs:
+            if settings[ci] is not None and settings[ci][2]:
+                kinds.setdefault(settings[ci][2][0][3], tuple(sig.get(ci, [])))
+        ks = sorted(kinds)
+        for i_ in range(len(ks)):
+            for j_ in range(i_ + 1, len(ks)):
+                if kinds[ks[i_]] == kinds[ks[j_]]:
+                    same.add((ks[i_].decode(), ks[j_].decode()))
+    c.extra['attribute_kinds_indistinguishable'] = sorted(same)
+    for pair in same:
+        if pair != ('alias', 'is-long-prefix'):
+            c.violation('generator-cannot-distinguish-attributes', {'kind': 'infrastructure', 'pair': pair}, no_input=True)
+
+
+# ---------------------------------------------------------------------------
+# exchange-rate settings (applied in context.rs when the handler is installed)
+
+def rates_settings_layer(c, run, stats):
+    """enable-internet-access / exchange-rate-source / exchange-rate-max-age: each changes what a currency
+    conversion prints.  Expected: the C20 model (cache_rates, repaired parser) on the cache files for the
+    source and max-age the *C19 model* reads from the config, handed to fend_core through h_cli."""
+    import c20
+    fend = run.fend
+    xdir = os.path.join(run.scratch, 'xcache')
+    os.makedirs(xdir)
+    now = int(time.time())
+    files = {}
+    for src, name in ((0, 'eu_small.xml'), (1, 'un_small.xml')):
+        data = str(now - 5000).encode() + b';' + open(os.path.join(vlib.ROOT, 'corpus', 'C20', name), 'rb').read()
+        files[src] = data
+        with open(os.path.join(xdir, c20.CACHE_NAME[src]), 'wb') as fh:
+            fh.write(data)
+    cfgs = []
+    root = os.path.join(run.scratch, 'xcfgs')
+    for source in ('"EU"', '"UN"', '"disabled"', None):
+        for internet in ('true', 'false', None):
+            for age in ('1000', '100000', None):
+                t = ''
+                if source:
+                    t += 'exchange-rate-source = %s\n' % source
+                if internet:
+                    t += 'enable-internet-access = %s\n' % internet
+                if age:
+                    t += 'exchange-rate-max-age = %s\n' % age
+                d = os.path.join(root, 'x%d' % len(cfgs))
+                os.makedirs(d)
+                with open(os.path.join(d, 'config.toml'), 'w') as fh:
+                    fh.write(t)
+                cfgs.append((d, t))
+    trees = run.run([(['--verif-hook', 'toml', os.path.join(d, 'config.toml')], None, run.env(d)) for d, _ in cfgs])
+    reqs = [sx([Sym('config'), Sym('tree'), conv_tree(read_dump(so.decode().strip()[3:]))]) for rc, so, se in trees]
+    mods = [parse_sx(o) for o in model_lines(c, reqs)]
+    oracle = c20.Oracle(fend)
+    exprs = ['1 EUR to USD', '100 JPY to GBP']
+    # the C20 model on the cache file of the configured source, for the configured max-age
+    plan = []
+    for (d, t), m in zip(cfgs, mods):
+        cf = m[0]
+        internet, source, age = cf[4], cf[5], cf[6]
+        if not internet:
+            plan.append(('err', b'internet access is disabled by fend configuration'))
+        elif source == 0:
+            plan.append(('err', b'exchange rate source is set to `disabled`'))
+        else:
+            plan.append(('cache', source - 1, age))
+    need = sorted({(p_[1], p_[2]) for p_ in plan if p_[0] == 'cache'})
+    toks = {}
+    tl = [sx([Sym('tokens-batch'), src, 1, now, age, files[src], [[2]]]) for src, age in need]
+    for (src, age), o in zip(need, model_lines(c, tl)):
+        toks[(src, age)] = set(parse_sx(o)[0])
+    oracle.need(set().union(*toks.values()) if toks else set())
+    cl = [sx([Sym('cache-batch'), src, 1, now, age, files[src], oracle.table(toks[(src, age)]), c20.CURS, [[2]]]) for src, age in need]
+    outcome = {k: parse_sx(o)[0] for k, o in zip(need, model_lines(c, cl))}
+    def spec_of(p_):
+        if p_[0] == 'err':
+            return [Sym('err'), p_[1]]
+        m = outcome[(p_[1], p_[2])]
+        if m[0] == b'rates':
+            return [Sym('table')] + [([cur, 'tok', lk[1]] if lk[0] == b'tok' else [cur, lk[0].decode()]) for cur, lk in zip(c20.CURS, m[2])]
+        if m[0] == b'err':
+            return [Sym('err'), m[1]]
+        return None                      # miss: the download path (network oracle)
+    jobs, hls = [], {}
+    for (d, t), p_ in zip(cfgs, plan):
+        sp = spec_of(p_)
+        for e in exprs:
+            jobs.append((d, t, p_, sp, e))
+            if sp is not None:
+                hls.setdefault(sx([Sym('run-exprs'), [0, 0, []], sp, e.encode()]), None)
+    keys = list(hls)
+    for k, o in zip(keys, c.impl('cli', keys)):
+        hls[k] = o
+    outs = run.run([(['-e', e], None, run.env(d, {'NO_COLOR': '1', 'FEND_CACHE_DIR': xdir})) for d, t, p_, sp, e in jobs])
+    seen_out = {}
+    for (d, t, p_, sp, e), (rc, so, se) in zip(jobs, outs):
+        c.note_case('X:%s:%s' % (t, e), True, 'X-rate-settings')
+        rep = {'layer': 'X exchange-rate settings', 'config_toml': t, 'expr': e, 'exit': rc, 'stdout': so.decode('utf-8', 'replace')[:200],
+               'stderr': se.decode('utf-8', 'replace')[:500], 'plan': repr(p_)[:200]}
+        if rc not in (0, 1) or b'panicked' in se:
+            c.violation('cli-crashes-rate-settings', dict(rep, kind='impl-vs-spec'))
+            continue
+        if sp is None:
+            if not (rc == 1 and so == b'' and se.startswith(b'Error: failed to retrieve ')):
+                c.violation('rate-setting-not-applied', dict(rep, kind='impl-vs-model', expected='cache too old for this max-age: download path'), no_input=True)
+            else:
+                stats['X-expired'] += 1
+            seen_out[(p_, e)] = 'miss'
+            continue
+        res = try_parse(hls[sx([Sym('run-exprs'), [0, 0, []], sp, e.encode()])])
+        want = spec_out(res) if isinstance(res, list) else None
+        if want is None or (rc, so, se) != want:
+            c.violation('rate-setting-not-applied', dict(rep, kind='impl-vs-spec', expected=repr(want)[:400],
+                        what='the conversion does not reflect enable-internet-access / exchange-rate-source / exchange-rate-max-age of the config'))
+        else:
+            stats['X-ok'] += 1
+        seen_out[(p_, e)] = (rc, so, se)
+    # each of the three settings must have mattered somewhere (else the layer proves nothing)
+    distinct = len(set(map(repr, seen_out.values())))
+    c.extra['rate_setting_distinct_outcomes'] = distinct
+    if distinct < 5:
+        c.violation('rate-settings-layer-degenerate', {'kind': 'infrastructure', 'distinct': distinct}, no_input=True)
 
 
 # ---------------------------------------------------------------------------
@@ -767,6 +1002,8 @@ def check(c):
             stats['M-non-unicode-argument-error'] += 1
     # ---- K ----
     config_layer(c, run, r, 450 if quick else 4000, stats)
+    # ---- X ----
+    rates_settings_layer(c, run, stats)
     # ---- C ----
     colours_layer(c, run, stats)
     c.vm_cross_sample('cli', POOL[0], POOL[1], k=25)
